@@ -1,10 +1,11 @@
 """C10 -- receive windows follow the regional parameters in force when the uplink was sent."""
 import re
-from .. import chanops, core, machist, macstage, lw
+from .. import adevhist, chanops, core, machist, macstage, lw, ndevhist
 
 ID = "C10"
 THEOREMS = ["C10_rx1_rule", "C10_window_dr_total", "C10_no_panic_in_window_config", "C10_windows_from_the_uplink",
-            "C10_delays", "C10_class_c_uses_rx2", "C10_fixed_plan_pairing"]
+            "C10_delays", "C10_class_c_uses_rx2", "C10_fixed_plan_pairing",
+            "C10_async_class_a_window_schedule", "C10_async_class_c_window_schedule"]
 TXRE = re.compile(r"TX pw=(-?\d+) rf=(\d+)/(\d+)/(\d+)/(\d+) rx1=(\d+)/(\d+)/(\d+)/(\d+) rx2=(\d+)/(\d+)/(\d+)/(\d+)")
 # (SF, BW index) of the LoRa data rates per region family, from RP002 (not from the implementation)
 DRS = {
@@ -166,8 +167,9 @@ def async_timing(rng, tier):
             for lead in (0, 15, 100):
                 f = lw.data_frame(3, 5, 0, 1, machist.rx_timing(delay), None, b"", nwk, app)
                 sess = "session=%s:%s:5:0" % (nwk.hex(), app.hex())
-                lines.append("adev r=%d lead=%d classc=0 fault=- %s | send 01 1 0 %s X%s | send 02 1 0 %s T,T" % (
-                    region, lead, sess, machist.draws(rng, 30), f.hex(), machist.draws(rng, 30)))
+                for cc in (0, 1):
+                    lines.append("adev r=%d lead=%d classc=%d fault=- %s | send 01 1 0 %s X%s | send 02 1 0 %s T,T" % (
+                        region, lead, cc, sess, machist.draws(rng, 30), f.hex(), machist.draws(rng, 30)))
                 lines.append("ndev r=%d fault=- %s | send 01 1 0 %s txdone | timeout | phy rx%s | send 02 1 0 %s txdone | timeout | timeout | timeout | timeout" % (
                     region, sess, machist.draws(rng, 30), f.hex(), machist.draws(rng, 30)))
         lines.append("adev r=%d lead=15 classc=0 fault=- | join 1 2 000102030405060708090a0b0c0d0e0f %s T,T" % (region, machist.draws(rng, 30)))
@@ -222,18 +224,16 @@ def run(rep, tier, rng):
     core.diff_stage(rep, "X:C10:mac-histories(windows)", lines, macstage.make_judge([], extra=oracle))
     macstage.oracle_pass(rep, lines, [], extra=oracle)
     tl = async_timing(rng, tier)
-    io = core.run_lines(core.harness_bin(), tl)
-    bad = 0
-    for c, o in zip(tl, io):
+
+    def tjudge(c, i, m):
         try:
-            v = timing_oracle(c, o)
+            return timing_oracle(c, i)
         except Exception as e:
-            v = {"kind": "front-end timing output not understood", "error": repr(e)}
-        if v:
-            bad += 1
-            if bad <= 3:
-                v.update({"case": c, "impl_output": o[:2000]})
-                rep.violation(v, concrete=True)
+            return {"kind": "front-end timing output not understood", "error": repr(e)}
+    # both front-ends are modelled (Model/AsyncDev.v, Model/NbDev.v): the schedule theorems speak of the code through this correspondence
+    core.diff_stage(rep, "X:C10:front-end-timing", tl, tjudge)
+    fe = adevhist.histories(rng.fork("adev"), tier) + ndevhist.histories(rng.fork("ndev"), tier)
+    core.diff_stage(rep, "X:C10:front-end-histories", fe, lambda c, i, m: None)
     rep.cov["frontend_timing_cases"] = len(tl)
     rep.cov["rule"] = ("9 regions x every uplink data rate x RX1 offsets 0..7 x RX2 overrides x RxDelay 0..15 x DlChannelReq mappings; joins over the fixed-plan channels "
                        "(biased and unbiased); Class C configuration; both front-ends' Timer::at / TimeoutRequest arguments for every RxDelay and several lead times; "
